@@ -533,8 +533,54 @@ def re_tables():
     return '\n'.join(lines) + '\n'
 
 
+def version_facts(repo):
+    """(BaseSpecList.__init__ skips every item named `version`, WorkflowSpec.validate_schema rejects a task named
+    `version`), read from the source (AST)."""
+    import ast
+    skips = None
+    with open(os.path.join(repo, 'mistral/lang/base.py')) as f:
+        tree = ast.parse(f.read())
+    for node in tree.body:
+        if isinstance(node, ast.ClassDef) and node.name == 'BaseSpecList':
+            for fn in node.body:
+                if isinstance(fn, ast.FunctionDef) and fn.name == '__init__':
+                    loops = [n for n in ast.walk(fn) if isinstance(n, ast.For)]
+                    if len(loops) != 1:
+                        raise Refuse('BaseSpecList.__init__: expected one loop')
+                    body = loops[0].body
+                    if len(body) != 1 or not isinstance(body[0], ast.If) or body[0].orelse:
+                        raise Refuse('BaseSpecList.__init__: loop body is not a single `if`')
+                    cond = ast.unparse(body[0].test)
+                    if cond != "k != 'version'":
+                        raise Refuse('BaseSpecList.__init__: condition %r not understood' % cond)
+                    skips = True
+    if skips is None:
+        raise Refuse('BaseSpecList.__init__ not found')
+    rejects = False
+    with open(os.path.join(repo, 'mistral/lang/v2/workflows.py')) as f:
+        tree = ast.parse(f.read())
+    found = False
+    for node in tree.body:
+        if isinstance(node, ast.ClassDef) and node.name == 'WorkflowSpec':
+            for fn in node.body:
+                if isinstance(fn, ast.FunctionDef) and fn.name == 'validate_schema':
+                    found = True
+                    for st in fn.body:
+                        if isinstance(st, ast.If) and 'version' in ast.unparse(st.test):
+                            if ast.unparse(st.test) != "'version' in self._data.get('tasks')" or \
+                                    len(st.body) != 1 or not isinstance(st.body[0], ast.Raise) or st.orelse or \
+                                    'InvalidModelException' not in ast.unparse(st.body[0]):
+                                raise Refuse('WorkflowSpec.validate_schema: version check %r not understood' %
+                                             ast.unparse(st))
+                            rejects = True
+    if not found:
+        raise Refuse('WorkflowSpec.validate_schema not found')
+    return skips, rejects
+
+
 def generate(repo):
     data = dump_schemas(repo)
+    skips, rejects = version_facts(repo)
     for cname, v in data['validators'].items():
         if v not in EXPECTED_VALIDATORS:
             raise Refuse('jsonschema picks %s for %s; the Lean interpreter models the draft-6+ validators' % (v, cname))
@@ -588,6 +634,10 @@ def generate(repo):
              'namespace Mistral.Gen.LangSchemas',
              '/-- the validator class `jsonschema.validate` picks for these schemas -/',
              'def validatorClass : String := %s' % lstr(sorted(set(data['validators'].values()))[0]),
+             '/-- BaseSpecList.__init__ (mistral/lang/base.py) skips every item named `version` -/',
+             'def specListSkipsVersion : Bool := %s' % ('true' if skips else 'false'),
+             '/-- WorkflowSpec.validate_schema rejects a task named `version` (repo patch 27) -/',
+             'def taskNamedVersionRejected : Bool := %s' % ('true' if rejects else 'false'),
              '/-- roots of polymorphic hierarchies (never instantiated, no schema of their own in use) -/',
              'def abstractClasses : List String := [%s]' % ', '.join(lstr(x) for x in sorted(data['abstract'])),
              '']
